@@ -192,3 +192,46 @@ Lemma translated_rows_ignore_stale_data_lemma : forall w n old old' old2 old2' v
   gen_int_1d w old v = gen_int_1d w old' v /\ gen_float_1d w old v = gen_float_1d w old' v /\
   gen_int_2d n w old2 v2 = gen_int_2d n w old2' v2 /\ gen_float_2d n w old2 v2 = gen_float_2d n w old2' v2.
 Proof. intros. repeat split; (destruct v || destruct v2); reflexivity. Qed.
+
+(* ---- strings (interned): "." is the missing string, "" the fill; per-sample rows may be ragged -------------- *)
+Definition str_raw (r : Z) (c : option Z) : Prop := match c with None => r = str_missing | Some v => r = v end.
+
+Lemma map_str_cells : forall raw cells, Forall2 str_raw raw cells -> raw = map (enc_cell str_missing) cells.
+Proof.
+  induction 1 as [|r c raw cells H _ IH]; [reflexivity|]. cbn [map]. rewrite <- IH. f_equal.
+  destruct c as [b|]; cbn [str_raw enc_cell] in *; exact H.
+Qed.
+
+Lemma translated_string_1d_lemma : forall w old raw cells, Forall2 str_raw raw cells -> (length cells <= w)%nat ->
+  gen_string_1d w old (Some raw) = Ok (enc_vec str_missing str_fill w (Some cells)) /\
+  gen_string_1d w old None = Ok (enc_vec str_missing str_fill w None).
+Proof.
+  intros w old raw cells H Hl. split; [|reflexivity].
+  unfold gen_string_1d. cbv zeta. cbn [bind]. pose proof (F2_length _ _ _ H) as Hlen.
+  rewrite set_prefix_full by lia. rewrite (map_str_cells raw cells H) at 1. rewrite Hlen. reflexivity.
+Qed.
+
+Lemma rows_set_prefix_ragged : forall w c (v : list (list Z)), Forall (fun x => (length x <= w)%nat) v ->
+  rows_set_prefix (rows_full (length v) w c) v = Ok (map (fun x => x ++ repeat c (w - length x)) v).
+Proof.
+  intros w c v H. induction H as [|x v Hx _ IH]; [reflexivity|].
+  change (length (x :: v)) with (S (length v)). rewrite rows_full_S, rows_set_prefix_cons.
+  rewrite set_prefix_full by exact Hx. rewrite IH. reflexivity.
+Qed.
+
+Lemma translated_string_2d_lemma : forall w old rows cellss, Forall2 (Forall2 str_raw) rows cellss ->
+  Forall (fun x => (length x <= w)%nat) rows ->
+  gen_string_2d (length rows) w old (Some rows) = Ok (map (fun cells => enc_vec str_missing str_fill w (Some cells)) cellss) /\
+  gen_string_2d (length rows) w old None = Ok (repeat (enc_vec str_missing str_fill w None) (length rows)).
+Proof.
+  intros w old rows cellss H Hw. split; [|reflexivity].
+  unfold gen_string_2d. cbv zeta. cbn [bind]. rewrite rows_set_prefix_ragged by exact Hw. f_equal.
+  induction H as [|r cells rows cellss Hr _ IH]; [reflexivity|].
+  inversion Hw as [|? ? _ Hw']; subst. cbn [map]. rewrite IH by exact Hw'. f_equal.
+  cbn [enc_vec]. rewrite (map_str_cells r cells Hr) at 1. rewrite (F2_length _ _ _ Hr). reflexivity.
+Qed.
+
+Lemma translated_string_scalar_lemma :
+  (forall r c rest, str_raw r c -> gen_string_scalar (Some (r :: rest)) = Ok (enc_cell str_missing c)) /\
+  gen_string_scalar None = Ok str_missing.
+Proof. split; [|reflexivity]. intros r c rest H. cbn. destruct c; cbn in *; rewrite H; reflexivity. Qed.
